@@ -60,6 +60,9 @@ TYPES = {
     "opt_model": Optional[S.Model],
     "pos_int": S.pos_int,
     "ate_int": S.ate_int,
+    "positive_int": __import__("jsonargparse.typing", fromlist=["PositiveInt"]).PositiveInt,
+    "unit_interval": __import__("jsonargparse.typing", fromlist=["ClosedUnitInterval"]).ClosedUnitInterval,
+    "dict_int_str": Dict[int, str],
     "type_base": Type[S.Base],
     "opt_type_base": Optional[Type[S.Base]],
     "decimal": Decimal,
